@@ -31,6 +31,7 @@ func VerifH_router4() {
 	r, stop := Handler4(req, resp)
 
 	vnd.Assert(r != nil || stop, "C13 a built-in handler returns a nil response only together with stop")
+	vnd.Assert(r != nil || stop, "C01 no handler passes a nil response on to its successors (they would dereference it)")
 	vnd.Cover("emitted")
 	vnd.Assert(r == resp && !stop, "C17 router passes the response on")
 	got, present := resp.Options[uint8(dhcpv4.OptionRouter)]
